@@ -1,7 +1,7 @@
 (* C06 -- Dice, IoU, RVD and clDice equal their set-theoretic definitions.
    Property theorems only; proofs live in Proofs/.  X = voxels whose reference value is the selected
    label, Y = voxels whose prediction value is in the selected label list (their union). *)
-From Pan Require Import Base.Common Base.Rnd64 Model.Metrics Proofs.MetricsFacts Proofs.C06Proofs.
+From Pan Require Import Base.Common Base.Rnd64 Model.Metrics Proofs.MetricsFacts Proofs.C06Proofs Proofs.Rnd64Facts Proofs.RoundedFacts.
 Open Scope Z_scope.
 
 (* the returned double is the correctly rounded quotient of the cardinalities *)
@@ -51,6 +51,16 @@ Theorem C06_one_iff_identical_nonempty : forall a, binary a ->
   ((dice_exact (sum_ref a) (sum_pred a) (n_inter a) == 1)%Q <-> (same_masks a /\ nonempty_masks a))
   /\ ((iou_exact (n_inter a) (n_union a) == 1)%Q <-> (same_masks a /\ nonempty_masks a)).
 Proof. intros a Hb. split; [apply dice_one_iff; exact Hb|apply iou_one_iff]. Qed.
+
+(* the same for the doubles actually returned: IEEE rounding (Base/Rnd64.rnd) is monotone and fixes 0 and 1 *)
+Theorem C06_rounding_is_monotone : forall q1 q2, (q1 <= q2)%Q -> (rnd q1 <= rnd q2)%Q.
+Proof. exact rnd_mono. Qed.
+Theorem C06_reported_values_in_unit_interval : forall ri pis a,
+  (0 <= dice (Some (ri, pis)) a <= 1)%Q /\ (0 <= iou (Some (ri, pis)) a <= 1)%Q.
+Proof. intros. split; [apply dice_sel_reported_range|apply iou_reported_range]. Qed.
+Theorem C06_identical_masks_score_one : forall a, binary a -> same_masks a -> nonempty_masks a ->
+  (dice None a == 1)%Q /\ (iou None a == 1)%Q.
+Proof. exact dice_iou_identical_reported. Qed.
 
 Theorem C06_cldice_harmonic_mean : forall (a : arr4) q, binary4 a -> cldice_exact a = Some q ->
   let skX := cntZ (fun v => fst (snd v)) a in
